@@ -170,6 +170,8 @@ def run_step(step):
                     evolver.queue_evolve_app(get_app(label))
             if step.get('purge'):
                 evolver.queue_purge_old_apps()
+            for label in step.get('purge_apps') or ():
+                evolver.queue_purge_app(label)
             res['evolution_required'] = evolver.get_evolution_required()
             res['can_simulate'] = evolver.can_simulate()
             d = evolver.diff_evolutions()
